@@ -13,6 +13,7 @@ Event vocabulary (all fields always present):
 from __future__ import annotations
 
 import gc
+import sys
 
 import execnet
 from execnet import gateway_base
@@ -266,7 +267,9 @@ class World:
             self.run_ops("w", ops, channel)
         finally:
             self.open_bodies -= 1
-            self.ev("body_end", "w", str(body_id), channel.id)
+            exc = sys.exc_info()[1]
+            # flag: the remote code ends with an ordinary exception (executetask will close the channel with the error text)
+            self.ev("body_end", "w", str(body_id), channel.id, flag=isinstance(exc, Exception) and not isinstance(exc, (EOFError, SimAbort)))
 
     def classify(self, e):
         if isinstance(e, gateway_base.RemoteError):
